@@ -2,6 +2,7 @@
 import itertools
 
 import numpy as np
+from mc.ref.linalg import allclose as _close
 import sympy
 
 from mc.engine import Section
@@ -72,12 +73,12 @@ def gate_case(case):
     ops = 1
     if k == 0:
         U = N(M)
-        if not np.allclose(U.conj().T @ U, np.eye(d), atol=1e-12):
+        if not _close(U.conj().T @ U, np.eye(d), atol=1e-12):
             return {"ok": False, "msg": "%s is not unitary" % name, "observed": str(np.round(U, 6).tolist()), "sig": "unitary"}
-        if g.is_hermitian and not np.allclose(U, U.conj().T, atol=1e-12):
+        if g.is_hermitian and not _close(U, U.conj().T, atol=1e-12):
             return {"ok": False, "msg": "%s is flagged self-adjoint but differs from its conjugate transpose" % name, "sig": "hermitian-flag"}
         Dg = N(g.dagger.matrix)
-        if not np.allclose(Dg, U.conj().T, atol=1e-12):
+        if not _close(Dg, U.conj().T, atol=1e-12):
             return {"ok": False, "msg": "%s.dagger is not the conjugate transpose" % name, "sig": "dagger"}
         return {"ok": True, "nt": False, "ops": 4, "out": "fixed", "extra": {"certified": 1}}
     deg = cutoff.matrix_degree(M, list(syms))
@@ -204,11 +205,11 @@ def relation_case(case):
             for b in range(2):
                 v = np.zeros(4); v[2 * a + b] = 1
                 w = np.zeros(4); w[2 * b + a] = 1
-                if not np.allclose(S @ v, w, atol=1e-12):
+                if not _close(S @ v, w, atol=1e-12):
                     return {"ok": False, "msg": "SWAP does not exchange |%d%d>" % (a, b), "sig": "relation:SWAP"}
         return {"ok": True, "nt": True, "out": "rel"}
     got, exp = checks[r]()
-    ok = np.allclose(got, exp, atol=1e-12)
+    ok = _close(got, exp, atol=1e-12)
     res = {"ok": bool(ok), "nt": True, "out": "rel"}
     if not ok:
         res.update(msg="fixed relation %s fails" % r, expected=str(np.round(exp, 6).tolist()), observed=str(np.round(got, 6).tolist()), sig="relation:" + r)
